@@ -458,6 +458,15 @@ func (ex *Exchange[H]) request(
 			return nil, err
 		}
 	}
+	// a header requested by its hash has to be the header of that hash:
+	// an answer carrying another one is not a valid answer, the next peer is asked
+	if hash := req.GetHash(); len(hash) != 0 {
+		for _, hdr := range hdrs {
+			if !bytes.Equal(hdr.Hash(), hash) {
+				return nil, fmt.Errorf("incorrect hash in header: expected %x, got %x", hash, hdr.Hash())
+			}
+		}
+	}
 	return hdrs, nil
 }
 
